@@ -303,9 +303,10 @@ static int cmd_batch(int argc, char **argv, int enumerate)
 				};
 				unsigned fi;
 				for (fi = 0; fi < sizeof(fac) / sizeof(fac[0]) && nviol < 20; fi++) {
-					long kmax = (fac[fi].site == FS_PWAIT2 || fac[fi].site == FS_PPOLL) ? (nw > 24 ? 24 : nw) : 1;
+					long kmax = (fac[fi].site == FS_PWAIT2 || fac[fi].site == FS_PPOLL) ? (nw > 24 ? 24 : nw) : 10;
 					for (k = 1; k <= kmax && nviol < 20; k++) {
 						struct simk_fault *f = &PLN.faults[basefaults];
+						char tag[24];
 						PLN.nfaults = basefaults + 1;
 						memset(f, 0, sizeof(*f));
 						f->site = fac[fi].site; f->tid = -1; f->k = (int)k; f->sticky = 1; f->err = fac[fi].err;
@@ -324,6 +325,13 @@ static int cmd_batch(int argc, char **argv, int enumerate)
 							snprintf(path, sizeof(path), "%s/cand-%s-%" PRIu64 "-a%d-%d-%ld.plan", outdir, prop, seed, fac[fi].site, fac[fi].err, k);
 							write_replay(&PLN, &OUT, path);
 							nviol++;
+						}
+						/* stop once the facility is not called that often in this plan */
+						snprintf(tag, sizeof(tag), " %d=", fac[fi].site);
+						{
+							const char *fl = strstr(OUT.text, "\nF");
+							if (fl == NULL || strstr(fl, tag) == NULL)
+								break;
 						}
 					}
 				}
